@@ -23,6 +23,8 @@ Init ==
       /\ prog = << <<"input", 0, 0>> >>
   \/ /\ \E m \in 1..MaxDim, n \in 1..MaxDim : \E r \in 1..Min2(m, n) : heap = << D(m, n, r, FALSE, FALSE, FALSE) >>
       /\ prog = << <<"create_test_matrix", 0, 0>> >>
+  \/ /\ \E m \in 1..MaxDim, n \in 1..MaxDim : \E r \in 1..Min2(m, n) : heap = << D(m, n, r, FALSE, FALSE, FALSE) >>
+      /\ prog = << <<"create_test_matrix_cond", 0, 0>> >>          \* same contract with a prescribed condition number
   \/ /\ \E n \in 1..MaxDim : heap = << D(n, n, n, TRUE, FALSE, FALSE) >>
       /\ prog = << <<"generate_random_unitary_matrix", 0, 0>> >>
 Apply1(op, i) ==
